@@ -160,6 +160,58 @@ def in_coq_corr(ctx, rnd, n_random):
     return ok
 
 
+def in_coq_mask(ctx, rnd, n):
+    """x[mask] with boolean mask arrays of rank 0..rank(x) on int64 data against Ndx/MaskIndex.v (lowering) and, on the
+    same cases, lowering == NumPy (which is also a theorem)."""
+    cases = []
+    for i in range(n):
+        r = rnd.randint(1, 3)
+        sh = [rnd.choice([0, 1, 2, 3]) if rnd.random() < 0.25 else rnd.choice([1, 2, 3]) for _ in range(r)]
+        k = rnd.randint(0, r)
+        x = {"dtype": "int64", "shape": sh, "data": list(range(ops.prod(sh)))}
+        m = {"dtype": "bool", "shape": sh[:k], "data": [rnd.random() < 0.5 for _ in range(ops.prod(sh[:k]))]}
+        cases.append({"id": f"gm-{i}", "inputs": {"x": x, "m": m}, "impl": "out = x[m]", "oracle": "out = x[m]", "eager": True, "lazy_subsets": [],
+                      "meta": {"func": "getitem", "form": "mask", "dtype": "int64", "dclass": "int", "mask_rank": k}})
+    res = core.run_cases("harness.h_ops", cases, workers=14, per_case_timeout=120)
+    lines, kept = [], []
+    for c in cases:
+        r = res.get(c["id"]) or {}
+        e = r.get("eager") or {}
+        if "ok" in e and "data" in e["ok"]:
+            out = "Some ([%s], [%s])" % ("; ".join(map(str, e["ok"]["shape"])), "; ".join(z(v) for v in e["ok"]["data"]))
+        elif "raise" in e:
+            out = "None"
+        else:
+            ctx.finding(family.attrs_of(c, "crash", "eager"), f"x[mask] shape {c['inputs']['x']['shape']} mask {c['inputs']['m']['shape']}: {str(r)[:160]}", family.replay_of(c, r, "eager"))
+            continue
+        x, m = c["inputs"]["x"], c["inputs"]["m"]
+        lines.append("  {| mk_shape := [%s]; mk_data := [%s]; mk_mshape := [%s]; mk_mdata := [%s]; mk_out := %s |}" % (
+            "; ".join(map(str, x["shape"])), "; ".join(z(v) for v in x["data"]), "; ".join(map(str, m["shape"])),
+            "; ".join("true" if b else "false" for b in m["data"]), out))
+        kept.append((c, r))
+        ctx.count(("gm", tuple(x["shape"]), tuple(m["shape"]), tuple(m["data"])), nontrivial=True)
+    src = ("From Coq Require Import List ZArith String Bool.\nFrom ND Require Import Base.Tensor Ndx.GetItem Ndx.ReduceCorr Ndx.MaskIndex.\nImport ListNotations.\nLocal Open Scope nat_scope.\n"
+           "Definition cases : list mkcase := [\n" + ";\n".join(lines) + "\n].\n"
+           'Eval vm_compute in ("BAD"%string, bad_idx mkcase_ok cases 0).\n'
+           "Example corr_mask : forallb mkcase_ok cases = true.\nProof. vm_compute. reflexivity. Qed.\n"
+           "Example mask_model_is_numpy_on_cases : forallb mkcase_spec_ok cases = true.\nProof. vm_compute. reflexivity. Qed.\n")
+    f = ctx.work / "CorrMask.v"
+    f.write_text(src)
+    ok, out = ctx.compile(f"T-io (in Coq): x[mask] == model ndx_getitem_mask (Reshape / Compress lowering of getitem_null) on {len(kept)} cases (ranks 1-3, mask ranks 0..rank, zero extents), and the model == NumPy on the same cases", f, kind="tie")
+    if not ok:
+        flat = re.sub(r"\s+", " ", out)
+        mm = re.search(r'\("BAD"(?:%string)?, \[(.*?)\]\)', flat)
+        for i in (re.findall(r"\d+", mm.group(1)) if mm else [])[:8]:
+            c, r = kept[int(i)]
+            orc, eg = r.get("oracle") or {}, r.get("eager") or {}
+            bad = True
+            if "ok" in orc and "ok" in eg:
+                bad = ops.cmp_arrays(orc["ok"], eg["ok"]) is not None
+            if bad:
+                ctx.finding(family.attrs_of(c, "model-mismatch", "eager"), f"x[mask] on shape {c['inputs']['x']['shape']} with mask {c['inputs']['m']}: implementation {str(eg)[:140]}; NumPy {str(orc)[:140]}", family.replay_of(c, r, "eager"))
+    return ok
+
+
 def run(ctx):
     rnd = random.Random(ctx.seed)
     ctx.trusted += ["tools/translate/gen_src.py index_functions (ast -> Gallina over a universal Python value type, fail-closed)",
@@ -179,6 +231,7 @@ def run(ctx):
     for f in ("ndonnx/_index.py", "ndonnx/_corearray.py", "ndonnx/_opset_extensions.py"):
         ctx.translator_inputs[f] = core.sha256_file(core.REPO / f)
     in_coq_corr(ctx, rnd, 1500 if ctx.tier == "quick" else 12000)
+    in_coq_mask(ctx, rnd, 300 if ctx.tier == "quick" else 3000)
     n = 500 if ctx.tier == "quick" else 5000
     cases = families.getitem_cases(rnd, n, prefix="G")
     family.evaluate(ctx, cases, want=("oracle", "traced", "static"))
